@@ -45,7 +45,20 @@ func execWire(line string) (string, bool) {
 			}
 			return "ok " + hexOr(fc.Pkt)
 		case "unpack":
-			fc, n, err := g.Unpack(mustHex(t[2]), t[1] == "1")
+			buf := mustHex(t[2])
+			fc, n, err := g.Unpack(buf, t[1] == "1")
+			if err == nil && witnessCtx != nil {
+				// the statement's shape clauses, evaluated on the implementation alone
+				definedType := fc.Type >= g.Tversion && fc.Type < g.Tlast && fc.Type != g.Terror
+				switch {
+				case !definedType:
+					witnessCtx.oracleFail("C02/undefined-type-accepted", fmt.Sprintf("Unpack succeeded on type %d", fc.Type), line)
+				case n < 7 || n > len(buf):
+					witnessCtx.oracleFail("C02/consumed-out-of-range", fmt.Sprintf("consumed %d of %d bytes", n, len(buf)), line)
+				case len(buf) >= 4 && uint32(n) != uint32(buf[0])|uint32(buf[1])<<8|uint32(buf[2])<<16|uint32(buf[3])<<24:
+					witnessCtx.oracleFail("C02/consumed-not-size-prefix", fmt.Sprintf("consumed %d, size prefix says otherwise", n), line)
+				}
+			}
 			return showUnpack(fc, n, err)
 		case "unpackenc":
 			dotu := t[1] == "1"
